@@ -118,6 +118,12 @@ P_C11(pre, e) ==
 
 -----------------------------------------------------------------------------
 (* live halves of C03 / C10 / C15 / C20 / C13 *)
+InFlightOf(kind) == CASE kind = "PLACE" -> "PENDING" [] kind = "CANCEL" -> "CANCELLING"
+                     [] kind = "UPDATE" -> "UPDATING" [] kind = "REPLACE" -> "REPLACING" [] OTHER -> "?"
+\* (an asynchronous placement is picked up - bet id and status - from the order stream, which may
+\* overtake a retry that the exchange de-duplicates by customer reference)
+InFlightOk(o, kind) == \/ o.status = InFlightOf(kind)
+                       \/ (kind = "PLACE" /\ o.async /\ o.bet /\ o.status \in {"EXECUTABLE", "COMPLETE"})
 P_C03L(pre, e) ==
     /\ Ck("C03", "LegalTransition", IllegalTransitions(e) = {}, {e.trans[i] : i \in IllegalTransitions(e)})
     \* live mode: complete is final; the local copy of the matched size may still catch up with the
@@ -140,6 +146,15 @@ P_C03L(pre, e) ==
     \* at most one operation in flight per order
     /\ Ck("C03", "OneInFlight",
           \A o \in DOMAIN e.st.ord : Cardinality({i \in DOMAIN e.st.pool : o \in SeqToSet(e.st.pool[i].orders)}) <= 1, "")
+    \* while a request for an order is outstanding (queued, on the wire or waiting for its retry) the order
+    \* shows the in-flight status of that request: the order stream moves PENDING (with a bet id) and
+    \* EXECUTABLE orders only, and the execution thread resets orders only when it gives the request up
+    /\ Ck("C03", "InFlightStatusWhileOutstanding",
+          \A i \in DOMAIN e.st.pool : \A o \in SeqToSet(e.st.pool[i].orders) :
+             Has(e.st.ord, o) => InFlightOk(e.st.ord[o], e.st.pool[i].kind),
+          UNION {{<<e.st.pool[i].kind, o, e.st.ord[o].status>> :
+                     o \in {x \in DOMAIN e.st.ord : x \in SeqToSet(e.st.pool[i].orders) /\ ~InFlightOk(e.st.ord[x], e.st.pool[i].kind)}} :
+                 i \in DOMAIN e.st.pool})
 P_C10L(pre, e) ==
     /\ Ck("C10", "LiveTradesExact", LiveTradesWrong(e.st) = {}, LiveTradesWrong(e.st))
     /\ Ck("C10", "TradeCompleteIff", TradeStatusWrong(e.st) = {}, TradeStatusWrong(e.st))
